@@ -164,7 +164,8 @@ class TU:
             if ck == "NullToPointer":
                 return ("null",)
             if ck in ("BitCast", "IntegralToPointer", "PointerToIntegral"):
-                return ("ptrcast", n["type"].get("qualType"), sub)
+                # 4th component: the source expression's own type (for alignment reasoning)
+                return ("ptrcast", n["type"].get("qualType"), sub, inner[0].get("type", {}).get("qualType"))
             if ck in ("IntegralToBoolean", "PointerToBoolean"):
                 return ("tobool", sub)
             if ck == "ToVoid":
